@@ -51,6 +51,10 @@ def program(name, direction):
         ins = '%s RA' % name
     else:
         ins = name
+    if name in LABELLED and direction == 'ctx':
+        # context: a call/tail to a (near or far) second label first, the target label sits
+        # directly on a collapsing li, the pseudo-instruction under test refers back to it
+        return ('tail F\ncall F\nL:\nli x9, 5\n%s\ninclude_bytes G0.bin\nF:\naddi x0 x0 0' % ins), 5, 3
     if name in LABELLED:
         if direction == 'fwd':
             return '%s\ninclude_bytes G0.bin\nL:\naddi x0 x0 0' % ins, 1, 3
